@@ -764,6 +764,8 @@ for _p in ("C02", "C05"):
         "Handle returns within 8 s (over a real socket pair: the vectorised read path).")
 PROPS["C16"]["rule"] = PROPS["C16"].get("rule", "") + (" The shared-path storm also runs under the Go race detector in the quick tier (150 cases, about 10 s after a 30 s build): the "
     "property names data races, and a plain load where an atomic one is needed shows nowhere else.")
+PROPS["C07"]["level_text"] += (" Regenerated obligation names_resolved_under_the_path_locks: every name look-up in pathNodeFor happens under the rename lock and the "
+    "directory node's lock, so the node an unlink locks is the node the name denotes when UnlinkAt runs.")
 PROPS["C10"]["level_text"] += (" Recycled response objects (Conc/RespPool.lean, after defect D20): over all clients of the process and every "
     "interleaving of calls starting, failing to send, being answered, connections failing and calls returning, a pooled response is referenced "
     "by no pending map and its channel is empty, no response serves two calls, and handleOne never blocks on a done channel while holding the "
